@@ -20,8 +20,9 @@ RULE = ("case = (library spec of 0-6 blocks over entries with 0-5 fields and key
         "and an entry with >= 2 fields; distinct = distinct (library, format)")
 ASSUMPTIONS = ["a custom parsing_failed_comment uses at most the documented {n} placeholder", "field values are str (the writer is specified for enclosed text values)"]
 MIN = {"separator": (20000, 400000), "field_layout": (20000, 400000), "auto_align": (2000, 40000), "failed_render": (3000, 60000),
-       "format_unchanged": (20000, 400000), "custom_failed_comment": (1000, 20000), "key_longer_than_column": (2000, 40000)}
+       "format_unchanged": (20000, 400000), "custom_failed_comment": (1000, 20000), "key_longer_than_column": (2000, 40000), "reused_format_object": (10000, 200000)}
 
+_SHARED = {}
 INDENTS = ["", " ", "\t", "    "]
 SEPS = ["", "\n", "\n\n", "\n-----\n", "§", "\r\n", " "]
 FCOMMENTS = [None, "% custom {n}", "%% no placeholder", "% WARNING {n} {n}"]
@@ -31,11 +32,14 @@ VALUES = ["{v}", '"q"', "{multi\nline}", "12", "{a {b} c}", "ident", '{x} # "y"'
 
 def rand_library(r):
     specs = []
-    for _ in range(r.choice([0, 1, 1, 2, 2, 3, 4, 6])):
+    big = r.random() < 0.01
+    for _ in range(r.randint(30, 120) if big else r.choice([0, 1, 1, 2, 2, 3, 4, 6])):
         k = r.random()
         if k < .5:
             nf = r.choice([0, 1, 2, 2, 3, 4, 5, 6, 7])
             ks = r.sample(KEYS, nf)
+            if r.random() < 0.02:
+                ks = ks + ["k%d" % j for j in range(r.randint(10, 40))]
             specs.append(["entry", r.choice(["article", "book", "x"]), "k%d_%d" % (len(specs), r.randint(0, 99)), [[x, r.choice(VALUES)] for x in ks]])
         elif k < .6:
             specs.append(["string", "s%d_%d" % (len(specs), r.randint(0, 99)), r.choice(VALUES)])
@@ -84,7 +88,14 @@ def check(case, ctx):
     indent, col, tc, sep = fs[:4]
     fcomment = fs[4] if fs[4] is not None else "% WARNING Parsing failed for the following {n} lines."
     lib = build.library(specs)
-    F = build.fmt(fs)
+    if ctx.cases % 2:
+        F = build.fmt(fs)
+    else:
+        # a long-lived format object that the caller re-configures between writes
+        F = _SHARED.setdefault("fmt", build.fmt(fs))
+        F.indent, F.value_column, F.trailing_comma, F.block_separator = fs[:4]
+        F.parsing_failed_comment = fs[4] if fs[4] is not None else "% WARNING Parsing failed for the following {n} lines."
+        ctx.mon("reused_format_object")
     before = dict(vars(F))
     st, text = sp.escape(lambda: writer.write(lib, F))
     ctx.ran()
@@ -109,7 +120,7 @@ def check(case, ctx):
         if st == "raise" or t2 != text:
             out.append(Violation("auto-align", "C06:auto-not-minimal-common-column", dict(case=case, auto=text[:300], explicit=str(t2)[:300], column=rcol)))
     # chunk per block (written alone with the resolved format), separator exactly between
-    F3 = build.fmt([indent, rcol, tc, sep, fs[4]])
+    F3 = build.fmt([indent, rcol, tc, sep, fs[4]])      # always a fresh object: the reference rendering
     chunks = []
     for b in lib.blocks:
         st, c = sp.escape(lambda: writer.write(Library([b]), F3))
